@@ -459,11 +459,42 @@ func vfC25RunAdd(v *vfT, c vfC25Case) {
 		return
 	}
 	// in-force ufrag, a candidate the agent keeps: it must be there (the sentinel, added later,
-	// already is; a generous grace covers goroutine scheduling inside pion/ice)
-	for deadline := time.Now().Add(3 * time.Second); n < 2 && time.Now().Before(deadline); {
+	// already is). Before calling it missing, two more sentinels are pushed and awaited, so the
+	// candidate's add had three later adds overtake it, plus a 250 ms grace (about 1000x the usual
+	// latency; kept short because every failing attempt during shrinking pays it in full).
+	for round := 1; n < 2 && round <= 2; round++ {
+		extra := fmt.Sprintf("candidate:4077567720 1 udp 2130706431 192.0.2.78 %d typ host", 47777+round)
+		if err := pc.AddICECandidate(ICECandidateInit{Candidate: extra}); err != nil {
+			v.Skip("sentinel candidate rejected: " + err.Error())
+		}
+		want := 1 + round // sentinels only
+		for deadline := time.Now().Add(3 * time.Second); time.Now().Before(deadline); {
+			time.Sleep(200 * time.Microsecond)
+			if n, _, err = vfC25RemoteCount(pc); err != nil {
+				v.Skip("GetRemoteCandidates: " + err.Error())
+			}
+			if n >= want {
+				break
+			}
+		}
+		if n < want {
+			v.Label("sentinel-not-seen(no verdict)")
+			return
+		}
+		if n > want {
+			n = 2 // the candidate is there
+			break
+		}
+		n = 1
+	}
+	for deadline := time.Now().Add(250 * time.Millisecond); n < 2 && time.Now().Before(deadline); {
 		time.Sleep(200 * time.Microsecond)
-		if n, _, err = vfC25RemoteCount(pc); err != nil {
+		m, _, err := vfC25RemoteCount(pc)
+		if err != nil {
 			v.Skip("GetRemoteCandidates: " + err.Error())
+		}
+		if m > 3 {
+			n = 2
 		}
 	}
 	if n < 2 {
@@ -477,7 +508,7 @@ func TestVerif_C25_AddICECandidate(t *testing.T) {
 		Rule: "the same candidate space, with ufrag extension absent / equal to the ufrag of the remote description in force (session- or media-level) / foreign / empty / of the previous generation, passed through ToJSON into AddICECandidate on a PeerConnection that either has one applied remote offer or has completed a first exchange and has an ICE-restart offer with new credentials pending (have-remote-offer); non-trivial = every case that reaches AddICECandidate",
 		Assumptions: []string{"mDNS and active TCP are disabled in the SettingEngine so no socket is opened for a generated address",
 			"'not added' is observed through ice.Agent.GetRemoteCandidates after a sentinel candidate added later became visible (adds are asynchronous in pion/ice); if the sentinel never shows the case gives no verdict",
-			"the remote description in force is the pending one when there is one (W3C addIceCandidate, pion's RemoteDescription()); a candidate naming its ufrag must reach the agent unless the agent ignores that candidate kind (active TCP, mDNS disabled) - observed after the sentinel, with a 3 s grace",
+			"the remote description in force is the pending one when there is one (W3C addIceCandidate, pion's RemoteDescription()); a candidate naming its ufrag must reach the agent unless the agent ignores that candidate kind (active TCP, mDNS disabled) - observed after the sentinel, with a 250 ms grace",
 			"history cases run on an isolated vnet: applying the local answer starts gathering and the transports without touching a real socket"},
 	}, func(v *vfT) vfC25Case {
 		_ = rapid.Uint32().Draw(v.R, "salt") // decorrelate from the round-trip property, which shares the seed
